@@ -89,6 +89,9 @@ func concOp(kind int, seed int64) string {
 		if rr.Intn(2) == 0 { // a text every candidate can encode
 			txt = strings.Repeat("plain ascii text 0123456789 ", 1+rr.Intn(12))
 		}
+		if rr.Intn(12) == 0 { // ... and one for which every candidate needs more than 255 parts
+			txt = strings.Repeat("a", 40000+rr.Intn(100))
+		}
 		proto := []string{"CMPP", "SMPP"}[rr.Intn(2)]
 		var pdc []datacoding.ProtocolDataCoding
 		for _, v := range batchValid[proto] {
@@ -127,6 +130,17 @@ func concOp(kind int, seed int64) string {
 		runtime.Gosched()
 		b, err := resp.IEncode()
 		return fmt.Sprint(b, err != nil)
+	case 9: // an encode that must fail (a value too long for its slot), like a caller's mistake in production
+		tn := []string{"smgp30.Submit", "cmpp20.PduSubmit", "cmpp30.Deliver", "sgip12.Bind", "smgp30.Login"}[rr.Intn(5)]
+		a := defaultAssign(rr, tn, true)
+		for _, f := range layouts[tn].Fields {
+			if f.K == "F" {
+				a[f.N] = fval{b: nulFree(rr, f.W+1+rr.Intn(5))}
+				break
+			}
+		}
+		_, err := build(tn, a).IEncode()
+		return fmt.Sprint("failenc ", err != nil)
 	case 8: // a large encode (several KiB)
 		tn, a := largeAssign(rr)
 		b, err := build(tn, a).IEncode()
@@ -178,7 +192,13 @@ func runConc(c Case, tr *Tracer) {
 	ids := make([][]int, ng)
 	for g := 0; g < ng; g++ {
 		for i := 0; i < nops; i++ {
-			o := opd{rr.Intn(10), rr.Int63()}
+			o := opd{rr.Intn(11), rr.Int63()}
+			if i == 0 && g%2 == 0 {
+				o.kind = 9 // every second goroutine starts with a failing encode
+			}
+			if i == 1 && g == 1 {
+				o.kind = 4
+			}
 			prog[g] = append(prog[g], o)
 			opID++
 			ids[g] = append(ids[g], opID)
